@@ -179,7 +179,8 @@ def deferred_obligation(ctx):
 def endpoint_walk(ctx):
     prog = ctx.prog
     cn = prog.func('client.connect')
-    tn = cn.nested.get('try_next_ep')
+    from ..loader import nested_by_role
+    tn = nested_by_role(cn, 'try_next_ep', ('passed_to', 'addErrback', 0))
     if tn is None:
         raise AnalysisError('anchor vanished: client.connect.try_next_ep')
     # connect
@@ -206,12 +207,24 @@ def endpoint_walk(ctx):
                 (p.value[1] or '').endswith('.getConnection')),
                'connect must return the factory\'s Deferred',
                nontrivial=False)
+    # the names connect() gives to the endpoint list and to the Deferred
+    def assigned_from(pred):
+        for n_ in ast.walk(cn.node):
+            if isinstance(n_, ast.Assign) and len(n_.targets) == 1 and \
+                    isinstance(n_.targets[0], ast.Name) and \
+                    isinstance(n_.value, ast.Call) and pred(n_.value):
+                return n_.targets[0].id
+        return None
+    ep_name = assigned_from(lambda c: isinstance(c.func, ast.Attribute) and
+                            c.func.attr == 'getDBusEndpoints') or 'eplist'
+    d_name = assigned_from(lambda c: isinstance(c.func, ast.Attribute) and
+                           c.func.attr == 'getConnection') or 'd'
     # try_next_ep
     for p in Interp(prog, exc_edges=False).run(tn):
         if p.outcome == 'raise':
             continue
         pops = [c for c in p.calls() if kind(c[2]) == 'attr' and
-                c[2][2] == 'pop' and c[2][1] == ('free', 'eplist')]
+                c[2][2] == 'pop' and c[2][1] == ('free', ep_name)]
         # ... or next(<iterator over the list made in connect>, default)
         nexts = [c for c in p.calls() if c[2] == ('builtin', 'next') and
                  c[3] and kind(c[3][0]) == 'free']
@@ -227,7 +240,7 @@ def endpoint_walk(ctx):
                             (nexts and inner[2][1] == nexts[0])):
                     chained = True
         fires = any(kind(c[2]) == 'attr' and c[2][2] == 'errback' and
-                    c[2][1] == ('free', 'd') for c in p.calls())
+                    c[2][1] == ('free', d_name) for c in p.calls())
         ctx.ob('C09.D2', tn.qualname, 'attempt-or-fail', chained != fires,
                'each step must either try the next endpoint with its '
                'failure chained back to try_next_ep, or fail the Deferred '
